@@ -1,6 +1,7 @@
 package main
 
 import (
+	"encoding/binary"
 	"io"
 	"os"
 	"path/filepath"
@@ -455,6 +456,32 @@ func damageBase(en *Env, b int) int {
 				}
 			}
 		}
+		if strings.HasSuffix(tg.name, ".hint") {
+			// a hint file cut exactly between two of its records (chunks): nothing in the file tells that entries are
+			// missing, and nothing needs to - every data file is intact, so the cut must be harmless (or reported)
+			var cuts []int
+			for off := 0; off+7 <= len(orig); {
+				if h.BlockSize-off%h.BlockSize < 7 { // (a block tail too short for a chunk header is padding)
+					off += h.BlockSize - off%h.BlockSize
+					continue
+				}
+				l := int(binary.LittleEndian.Uint16(orig[off+4 : off+6]))
+				if l == 0 && orig[off+6] == 0 {
+					break
+				}
+				off += 7 + l
+				if off < len(orig) {
+					cuts = append(cuts, off)
+				}
+			}
+			step := 1
+			if len(cuts) > 24 {
+				step = len(cuts) / 24
+			}
+			for i := 0; i < len(cuts); i += step {
+				ds = append(ds, dmg{kind: "trunc", cut: cuts[i]})
+			}
+		}
 		nx := 12
 		if en.Thorough() {
 			nx = 60
@@ -512,7 +539,7 @@ func damageBase(en *Env, b int) int {
 			}
 			os.WriteFile(filepath.Join(tdir, tg.name), buf, 0644)
 			ev := h.Ev{"ev": "damage", "kind": d.kind, "file": tg.dir + "/" + tg.name, "off": d.off, "bit": d.bit, "cut": d.cut,
-				"tail": tg.dir == "data" && tg.name == lastData && d.off >= lastRecStart[tg.name]}
+				"tail": tg.dir == "data" && tg.name == lastData && d.off >= lastRecStart[tg.name], "hint": strings.HasSuffix(tg.name, ".hint")}
 			// the sequential reader over the damaged file itself
 			sc, scerr := scanAny(e, tdir, tg.name)
 			ev["scan"], ev["scanerr"] = sc, scerr
